@@ -68,6 +68,24 @@ UID_BODIES = {
     "NOUID2": ics_no_uid("nouid2"),
 }
 
+LONG_UID = "long-uid-" + "0123456789" * 8  # 89 characters: the stored UID line is folded
+UID_BODIES.update({
+    "UL1a": ics(LONG_UID, "long one"),
+    "UL1b": ics(LONG_UID, "long uno"),
+    "ULP": ics(LONG_UID[:70], "prefix of the long uid"),
+})
+
+
+def ics_repeated(uid, summary, attendees, exdates, cats):
+    """An event with properties that occur several times (ATTENDEE, EXDATE, CATEGORIES)."""
+    extra = "\n".join(["RRULE:FREQ=DAILY;COUNT=10"] + ["ATTENDEE:mailto:%s@example.com" % a for a in attendees] + ["EXDATE:202001%02dT100000Z" % d for d in exdates] + ["CATEGORIES:%s" % c for c in cats])
+    return ics(uid, summary, extra=extra)
+
+
+# R1 / R2 share the UID and SOME of the repeated values (an edit that replaces one attendee, one exception date, one category)
+CAL_BODIES["R1"] = ics_repeated("uid-1", "repeated", ["ann", "bob", "cy"], [3, 4], ["work", "urgent"])
+CAL_BODIES["R2"] = ics_repeated("uid-1", "repeated", ["ann", "bob", "dan"], [3, 5], ["work", "later"])
+
 CARD_BODIES = {
     "K": vcf("card-1", "Jo Doe"),
     "K2": vcf("card-1", "Jo Dof"),
